@@ -2,7 +2,9 @@
 Tie: generated histories (placements, inserts of all three overloads, rebalance, shuffles with a harness RNG,
 swap, clear, gathers) run on the real ygm::container::bag / tagged_bag under simmpi (all routing modes, tiny
 buffers, several layouts and schedules) and through the Lean model YgmVerif.BagOps (driver mode `bag`), whose
-schedule parameters are read off the real run; every rank's vector is compared item by item.
+schedule parameters (execution order of inserts, iteration order of to_send, ranks drawn by global_shuffle, and
+the interleaving of every rank's pops / swap-out with the arrivals, observed through the "ex-" hook of comm.ipp)
+are read off the real run; every rank's vector is compared item by item, in order.
 Direct oracle: multiset over all ranks = multiset inserted; after rebalance the local sizes are the block
 sizes of an array of that length; gathers return the full multiset; tags are distinct and address their item."""
 import hashlib
@@ -640,10 +642,10 @@ def run(tier, seed, model_ok=True):
     if not model_ok:
         res.corr_failures.append({"relation": "model driver available", "what": "Lean library does not build", "case": None})
     rng = random.Random(seed * 104729 + (14 if tier == "quick" else 1400))
-    per_size = 14 if tier == "quick" else 110
-    tb_per_size = 3 if tier == "quick" else 20
+    per_size = 32 if tier == "quick" else 4000
+    tb_per_size = 8 if tier == "quick" else 600
     cases = [dict(c) for c in DIRECTED]
-    for R in range(1, 9):
+    for R in range(1, 9 if tier == "quick" else 13):
         placements = [("one-rank-explicit", 2 * R + 1), ("one-rank-vector", 3 * R), ("rr-one-source", 2 * R + 3), ("rr-all-sources", 3 * R + 1),
                       ("subset", 2 * R), ("mixed", 2 * R + 2), ("one-rank-explicit", max(R - 1, 0)), ("rr-one-source", max(R - 2, 1) if R > 1 else 1),
                       ("one-rank-vector", 0), ("one-rank-vector", 1), ("subset", R)]
